@@ -34,5 +34,5 @@ package service
 //@ func NewFileSystem
 //@   props C07
 //@   taggedonly
-//@   requires config != nil && (forall j int :: 0 <= j && j < len(opts) ==> opts[j] != nil)
+//@   requires config != nil
 //@   assert[C07] before "stargzfs.NewFilesystem(fsRoot(root)" : opqGiven == (userxattr ? layer.OverlayOpaqueUser : layer.OverlayOpaqueTrusted)
